@@ -31,6 +31,8 @@ pub struct AllReaders<'w, 's>
     ra: RemovalEvent<'w, 's, CA>,
     rb: RemovalEvent<'w, 's, CB>,
     d: DespawnEvent<'w>,
+    res_a: ReactRes<'w, RA>,
+    res_b: ReactRes<'w, RB>,
 }
 
 /// Payloads taken out of system events; dropped by the caller after the run has been logged.
@@ -43,6 +45,13 @@ pub struct Held
 
 impl<'w, 's> AllReaders<'w, 's>
 {
+    /// Bevy change detection on the two reactive resources, relative to this system's (or system state's) last run.
+    pub fn changed(&self) -> [bool; 2]
+    {
+        use bevy::ecs::change_detection::DetectChanges;
+        [self.res_a.is_changed(), self.res_b.is_changed()]
+    }
+
     /// Samples every reader. `take`: also take the system event; `second`: try to take it a second time.
     pub fn sample(&mut self, take: bool, second: bool, held: &mut Held) -> (Readings, Option<bool>)
     {
@@ -186,6 +195,7 @@ fn full_system<R: MkResult>(uid: SysUid) -> impl FnMut(Commands, AllReaders, Loc
         let mut held = Held::default();
         let (readings, second_take) = readers.sample(true, second, &mut held);
         push(Ev::RunBegin{ run: ctx.run, sys: uid, local_n: *local, captured_n: captured, readings: Some(readings), second_take });
+        push(Ev::ChangeSample{ changed: readers.changed(), resample: false });
         drop(held);
         let err = queue_script(&mut c, uid, &ctx);
         let (again, _) = readers.sample(false, false, &mut Held::default());
@@ -207,11 +217,14 @@ fn exclusive_system<R: MkResult>(uid: SysUid)
         let ctx = begin_run(uid);
         let second = ctx.script.as_ref().map(|s| s.take_twice).unwrap_or(false);
         let mut held = Held::default();
-        let (readings, second_take) = { let mut readers = state.get_mut(world); readers.sample(true, second, &mut held) };
+        let (readings, second_take, changed) = { let mut readers = state.get_mut(world); let ch = readers.changed(); let (r, s) = readers.sample(true, second, &mut held); (r, s, ch) };
         push(Ev::RunBegin{ run: ctx.run, sys: uid, local_n: *local, captured_n: captured, readings: Some(readings), second_take });
+        push(Ev::ChangeSample{ changed, resample: false });
         drop(held);
         let err = { let mut c = world.commands(); queue_script(&mut c, uid, &ctx) };
-        let (again, _) = { let mut readers = state.get_mut(world); readers.sample(false, false, &mut Held::default()) };
+        let (again, changed) = { let mut readers = state.get_mut(world); let ch = readers.changed(); (readers.sample(false, false, &mut Held::default()).0, ch) };
+        // fetching the system state a second time moves its change-detection baseline
+        push(Ev::ChangeSample{ changed, resample: true });
         push(Ev::BodyEnd{ run: ctx.run, readings: Some(again), err });
         R::mk(err)
     }
@@ -260,6 +273,7 @@ fn named_fn(mut readers: AllReaders, mut local: Local<u32>)
     let mut held = Held::default();
     let (readings, _) = readers.sample(true, false, &mut held);
     push(Ev::AnonRun{ local_n: *local, readings });
+    push(Ev::ChangeSample{ changed: readers.changed(), resample: false });
     drop(held);
 }
 
